@@ -9,8 +9,11 @@ from .. import common, proj, rustgen as rg, serde_oracle, shape as sh
 from ..common import Verdict
 
 RENAME_ALL = [None, "lowercase", "UPPERCASE", "PascalCase", "camelCase", "snake_case", "SCREAMING_SNAKE_CASE", "kebab-case", "SCREAMING-KEBAB-CASE"]
-FIELD_IDENTS = ["name", "user_account_id", "field2", "a1_b2", "x", "a__b", "_private", "kind_", "userID", "HTTPStatus", "is_ok", "r#type", "v2_api_key"]
-VARIANT_IDENTS = ["Active", "HTTPError", "XmlHttpRequest", "A", "V2", "Value_With_Underscore", "lowercase", "SCREAMING", "FirstValue", "IOError2"]
+FIELD_IDENTS = ["name", "user_account_id", "field2", "a1_b2", "x", "a__b", "_private", "kind_", "userID", "HTTPStatus", "is_ok", "r#type", "v2_api_key",
+                # identifiers with non-ASCII letters after an ASCII first letter: serde's rules change the case of ASCII letters only
+                # (a non-ASCII FIRST letter makes serde_derive itself panic under camelCase — no program, nothing to compare with)
+                "größe", "café_count", "straße_nr", "naïve_id"]
+VARIANT_IDENTS = ["Active", "HTTPError", "XmlHttpRequest", "A", "V2", "Value_With_Underscore", "lowercase", "SCREAMING", "FirstValue", "IOError2", "Größe", "Straße"]
 RENAME_VALUES = ["customName", "id", "user-id", "USER-ID", "with space", "naïve", "日本", "skip", "rename_all", "skip_serializing", "do_skip_me",
                  "rename", "say \"hi\"", "back\\slash", "a=b", "a, b", "renamed_all", "default", "1st",
                  # every kind of quote and what a template literal would read
